@@ -87,6 +87,7 @@ fn main() {
         "systems" => drivers::systems::run(&mut ctx),
         "agree" => drivers::agree::run(&mut ctx),
         "harden" => drivers::harden::run(&mut ctx),
+        "ros2" => drivers::ros2::run(&mut ctx),
         "demand" => drivers::cost::run_demand(&mut ctx),
         d => {
             eprintln!("unknown driver {}", d);
